@@ -81,8 +81,18 @@ def distinct(names):
 
 
 def str_pre(names, length=1):
-    """Preconditions for ID-like strings: fixed length, printable ASCII (renderable as XML)."""
+    """Preconditions for ID-like strings: fixed length, printable ASCII (renderable as XML).
+    length='1-2': one or two characters, so that one ID may be a prefix / suffix of another."""
     out = []
+    if length == '1-2':
+        # the second ID of the list and the unknown ID 'x' have two characters, all others one: the solver may
+        # make a one-character ID the prefix or the suffix of a two-character one (fixed lengths do not fork)
+        for i, n in enumerate(names):
+            if i == 1 or n == 'x':
+                out += ['len(%s) == 2' % n, '33 <= ord(%s[0]) <= 126' % n, '33 <= ord(%s[1]) <= 126' % n]
+            else:
+                out += ['len(%s) == 1' % n, '33 <= ord(%s) <= 126' % n]
+        return out
     for n in names:
         out.append('len(%s) == %d' % (n, length))
         if length == 1:
